@@ -308,6 +308,16 @@ mod vh_comm {
     }
     comm_harness!(h_comm_step_ioe, step_case, true, true, true, 2, 3);
     comm_harness!(h_comm_step_oe, step_case, false, true, true, 0, 3);
+    /// quick variants: one limited read (3 system calls) / two limited reads sharing 3 system calls
+    pub unsafe fn limit1_case(use_in: bool, use_out: bool, use_err: bool, input_len: usize, budget: u32) {
+        let ex = setup(use_in, use_out, use_err, input_len, false, budget);
+        let n1: usize = kani::any();
+        kani::assume(n1 >= 1);
+        let (ex, _) = one_read(ex, Some(n1), None);
+        finish(ex);
+    }
+    comm_harness!(h_comm_limit_q1, limit1_case, false, true, true, 0, 3);
+    comm_harness!(h_comm_limit_q2, limit_case, false, true, true, 0, 3);
     comm_harness!(h_comm_limit_oe, limit_case, false, true, true, 0, 4);
     comm_harness!(h_comm_limit_io, limit_case, true, true, false, 2, 4);
 
